@@ -308,18 +308,23 @@ void KDTree<CoordType, ValueType>::collect_into(Node* n,
 template <typename CoordType, typename ValueType>
 bool KDTree<CoordType, ValueType>::delete_node(Node* n) {
   // replace the node with an appropriate node from its subtree, repeating until
-  // the node is a leaf node
+  // the node is a leaf node. the replacement is always the minimum (along the
+  // node's split dimension) of the after_or_equal subtree: everything left in
+  // that subtree is still >= the new point and everything in the before
+  // subtree is still strictly less than it, so lookups keep finding points that
+  // tie with the replacement along this dimension. (taking the maximum of the
+  // before subtree instead would leave such ties on the before side, where
+  // at/erase/exists never look for them.) if there's no after_or_equal subtree,
+  // the before subtree takes its place first - all of its points are >= its
+  // own minimum
   bool was_leaf_node = true;
   while (n->before || n->after_or_equal) {
     was_leaf_node = false;
-    Node* target;
-    if (n->before) {
-      target = KDTree::find_subtree_min_max(n->before, n->dim, true);
-    } else if (n->after_or_equal) {
-      target = KDTree::find_subtree_min_max(n->after_or_equal, n->dim, false);
-    } else {
-      throw std::logic_error("node is a leaf but still claims to be movable");
+    if (!n->after_or_equal) {
+      n->after_or_equal = n->before;
+      n->before = nullptr;
     }
+    Node* target = KDTree::find_subtree_min_max(n->after_or_equal, n->dim, false);
     n->pt = target->pt;
     n->value = std::move(target->value);
     n = target;
